@@ -19,11 +19,11 @@ def loopBody : Stmt → Option Block
   | .repeat_ _ b _ => some b
   | _ => none
 
+/-- `visit_generic_for`, `visit_numeric_for`, `visit_while`, `visit_repeat` -/
 def collect : Node → List Diag
-  | .stmt (.genFor sp _ _ b) => if blockIsEmpty b then [{ code := "empty_loop", primary := sp, msg := msg }] else []
-  | .stmt (.numFor sp _ _ _ _ _ b) => if blockIsEmpty b then [{ code := "empty_loop", primary := sp, msg := msg }] else []
-  | .stmt (.while_ sp _ b) => if blockIsEmpty b then [{ code := "empty_loop", primary := sp, msg := msg }] else []
-  | .stmt (.repeat_ sp b _) => if blockIsEmpty b then [{ code := "empty_loop", primary := sp, msg := msg }] else []
+  | .stmt s => match loopBody s with
+    | some b => if blockIsEmpty b then [{ code := "empty_loop", primary := stmtSpan s, msg := msg }] else []
+    | none => []
   | _ => []
 
 def run (b : Block) : List Diag := (nBlock b).flatMap collect
